@@ -224,6 +224,8 @@ def build_spec(kind: str, mode: str, ctx: Any, tier: str) -> tuple[dict, dict]:
         kw0 = dict(sname)
         if kind == 'frame':
             kw0['channels'] = [R_('C2')]
+        if kind == 'origin':
+            kw0.update(file_set_number=9, creation_time=DT0)      # (their defaults are a random number and now())
         ops.append(S.op_add(kind, 'X0', tname if position == 'between-full' else 'OTHER-0', **kw0))
     # the object under test
     kw: dict[str, Any] = dict(sname)
@@ -277,6 +279,8 @@ def build_spec(kind: str, mode: str, ctx: Any, tier: str) -> tuple[dict, dict]:
         kw1 = dict(sname)
         if kind == 'frame':
             kw1['channels'] = [R_('C2')] if position == 'before-bare' else [R_('C0')]
+        if kind == 'origin':
+            kw1.update(file_set_number=9, creation_time=DT0)
         ops.append(S.op_add(kind, 'X1', tname if position == 'between-full' else 'OTHER-1', **kw1))
     if rename_set:
         # after ALL objects were added: the registries are keyed by the name a set had when it was created, so adding
